@@ -106,6 +106,14 @@ package runtimev2
 //@ ensures i >= len(params) || i >= len(expr.ParamNormalized) ==> result1 != nil
 //@ ensures i < len(params) && i < len(expr.ParamNormalized) && !old(params[i].Variable) && old(expr.ParamNormalized[i]) == nil && old(params[i].Val) == nil ==> result1 != nil
 //@ ownensures i < len(params) && i < len(expr.ParamNormalized) && old(params[i].Variable) && old(expr.ParamNormalized[i]) == nil ==> result1 == nil
+// the value of a parameter is the value of the argument bound to its slot - the node CheckPassParam put
+// there, whether it was given by position or by name - and the default only when the slot is empty
+//@ ownensures i < len(params) && i < len(expr.ParamNormalized) && !old(params[i].Variable) && old(expr.ParamNormalized[i]) != nil ==> ncalls(RunExpr) == 1 && callarg(RunExpr, 0, 1) == old(expr.ParamNormalized[i])
+//@ ownensures i < len(params) && i < len(expr.ParamNormalized) && !old(params[i].Variable) && old(expr.ParamNormalized[i]) == nil ==> ncalls(RunExpr) == 0
+//@ ownensures i < len(params) && i < len(expr.ParamNormalized) && old(params[i].Variable) ==> (forall k int :: 0 <= k && tomath(k) < ncalls(RunExpr) && i + k < len(expr.ParamNormalized) ==> callarg(RunExpr, tomath(k), 1) == old(expr.ParamNormalized[i + k]))
+//@ loop 1
+//@ invariant[C19] ncalls(RunExpr) == tomath(rangeindex) + 1 && i >= 0 && i < len(expr.ParamNormalized)
+//@ invariant[C19] forall k int :: 0 <= k && tomath(k) < ncalls(RunExpr) && i + k < len(expr.ParamNormalized) ==> callarg(RunExpr, tomath(k), 1) == old(expr.ParamNormalized[i + k])
 
 //@ func GetParamInt
 //@ like GetParam
